@@ -113,7 +113,7 @@ def build_variant(variant, extra_defs=()):
                 raise RuntimeError("source file missing: " + src)
             fl = cflags + base
             if s == "miniz" and "-fsanitize=address,undefined" in cflags:
-                fl = fl + ["-fno-sanitize=alignment"]
+                fl = fl + ["-fno-sanitize=alignment,nonnull-attribute"]   # third-party miniz: unaligned loads, memcpy(.., NULL, 0)
             key = sha(read(src, "rb"), hh, " ".join([cc] + fl))
             obj = os.path.join(odir, s + ".o")
             stamp = obj + ".key"
